@@ -1074,11 +1074,18 @@ func (p *printer) expr1(expr ast.Expr, prec1, depth int) {
 			p.print(token.RBRACE)
 		}
 	case *ast.ErrWrapExpr:
+		paren := x.Default != nil && prec1 == token.HighestPrec // (a?:d).f, (a?:d)[i], (a?:d)(): the default would swallow the suffix
+		if paren {
+			p.print(token.LPAREN)
+		}
 		p.expr1(x.X, token.HighestPrec, depth) // a postfix operator binds tighter than any unary or binary one
 		p.print(x.Tok)
 		if x.Default != nil {
 			p.print(token.COLON)
 			p.expr1(x.Default, token.UnaryPrec, depth) // the parser reads the default as a unary expression
+		}
+		if paren {
+			p.print(token.RPAREN)
 		}
 	case *ast.LambdaExpr:
 		if prec1 > token.LowestPrec { // a lambda binds weaker than every operator
